@@ -107,3 +107,13 @@ package keeper
 //@ ensures [oracle_account_keeps_tip_minus_burn] err == nil ==> bank.bal[module("oracle")] == old(bank.bal[module("oracle")]) + msg.Amount.Amount - 2*msg.Amount.Amount/100
 //@ ensures [two_percent_burned] err == nil ==> bank.supply == old(bank.supply) - 2*msg.Amount.Amount/100
 //@ ensures [only_positive_loya_tips] err == nil ==> msg.Amount.Amount > 0 && msg.Amount.Denom == "loya"
+
+// ---- reward amounts (C09) ----
+
+//@ func CalculateRewardAmount(reporterPower, reportsCount, totalPower, reward) (amount)
+//@ requires [powers_fit_int64] reporterPower < 9223372036854775808 && reportsCount < 9223372036854775808 && 0 < totalPower && totalPower < 9223372036854775808
+//@ requires [reward_non_negative] reward >= 0
+//@ ensures [never_negative] amount >= 0
+//@ ensures [is_the_rounded_formula] amount == decmul(decquo(reporterPower * reportsCount * 1000000000000000000, totalPower * 1000000000000000000), reward * 1000000000000000000)
+//@ ensures [whole_reward_for_sole_reporter] reporterPower == totalPower && reportsCount == 1 ==> amount == reward * 1000000000000000000
+//@ ensures [nothing_for_no_power] reporterPower == 0 ==> amount == 0
